@@ -103,6 +103,9 @@ func ParseToken(tokenString string, claims any) ([]byte, error) {
 	if err != nil {
 		return nil, fmt.Errorf("%w: malformed jwt payload: %v", ErrParse, err)
 	}
+	if bytes.Equal(bytes.TrimSpace(payload), []byte("null")) {
+		return nil, fmt.Errorf("%w: jwt payload is null", ErrParse)
+	}
 	err = json.Unmarshal(payload, claims)
 	return payload, err
 }
